@@ -3,11 +3,16 @@
    The forall-programs statement "golua = LuaCore" is NOT a theorem here (no
    verified compiler); it is checked program by program (translation
    validation, lib/props/C01.py).  The theorems below are about LuaCore, the
-   specification side (GV.Lua.Machine), and guard against a wrong oracle. *)
-From Coq Require Import ZArith List.
-From GV Require Import Lua.Syntax Lua.Value Lua.Machine Lua.Meta.
+   specification side (GV.Lua.Machine, written from the manual), and guard
+   against a wrong oracle.  All are quantified over every configuration /
+   stack / store / number of steps.  Axioms: only those of the real-number
+   library that Flocq (binary64 floats) depends on. *)
+From Coq Require Import ZArith List Bool FMapPositive.
+From GV Require Import Base.W64 Lua.Syntax Lua.Value Lua.Machine Lua.Meta.
 Import ListNotations.
+Open Scope Z_scope.
 
+(* adjustment of multiple results (manual 3.4.12) *)
 Theorem C01_paren_one_value : forall c vs k,
   ctl c = CRet vs -> stk c = KFirst :: k ->
   step c = inl (mkCfg (CRet [first vs]) k (sto c) (trace c) (cline c)).
@@ -25,3 +30,64 @@ Theorem C01_list_last_all_values : forall c vs acc ρ lk k,
   step c = finish_list c (acc ++ vs) ρ lk k.
 Proof. exact list_last_all_values. Qed.
 Print Assumptions C01_list_last_all_values.
+
+(* multiple assignment evaluates every right-hand side before assigning (3.3.3):
+   `a, b = b, a` swaps, for all stores, stacks and cells *)
+Theorem C01_assign_rhs_first : forall ca cb rest va' k σ tr ln ln0,
+  let ρ := mkEnv ((nb, cb) :: (na, ca) :: rest) va' in
+  steps 8 (mkCfg (CStat ln (SAssign [EVar na; EVar nb] [EVar nb; EVar na]) ρ) k σ tr ln0) =
+  inl (mkCfg CDone k (cell_set (cell_set σ ca (cell_get σ cb)) cb (cell_get σ ca)) tr ln0).
+Proof. exact assign_rhs_first_swap. Qed.
+Print Assumptions C01_assign_rhs_first.
+
+(* fresh variables per loop iteration and per execution of `local` (3.5) *)
+Theorem C01_fresh_cell_per_iteration_fornum : forall x cur lim st b ρ ln k σ tr ln0,
+  ((if 0 <? st then cur + st <=? lim else lim <=? cur + st) && in64b (cur + st))%bool = true ->
+  step (mkCfg CDone (KForNumI x cur lim st b ρ ln :: k) σ tr ln0) =
+  inl (mkCfg (CBlock b (mkEnv ((x, ncell σ) :: vars ρ) (va ρ)) [])
+             (KForNumI x (cur + st) lim st b ρ ln :: k)
+             (snd (cell_alloc σ (VInt (cur + st)))) tr ln0)
+  /\ ncell (snd (cell_alloc σ (VInt (cur + st)))) = Pos.succ (ncell σ).
+Proof. exact fresh_cell_per_iteration_fornum. Qed.
+Print Assumptions C01_fresh_cell_per_iteration_fornum.
+
+Theorem C01_fresh_cells_per_iteration_forin : forall xs f s b ρ ln k σ tr ln0 v vs,
+  v <> VNil ->
+  step (mkCfg (CRet (v :: vs)) (KForInC xs f s b ρ ln :: k) σ tr ln0) =
+  inl (let '(ρv, s', _) := bind_names xs (v :: vs) (vars ρ) σ in
+       mkCfg (CBlock b (mkEnv ρv (va ρ)) []) (KForIn xs f s v b ρ ln :: k) s' tr ln0).
+Proof. exact fresh_cells_per_iteration_forin. Qed.
+Print Assumptions C01_fresh_cells_per_iteration_forin.
+
+Theorem C01_local_binds_fresh : forall xs rest seen acc ρ k σ tr ln vs,
+  has_close xs = false ->
+  step (mkCfg (CRet vs) (KList acc [] ρ (LLocal xs rest seen) :: k) σ tr ln) =
+  inl (let '(ρv, s, _) := bind_names (map fst xs) (acc ++ vs) (vars ρ) σ in
+       mkCfg (CBlock rest (mkEnv ρv (va ρ)) seen) k s tr ln).
+Proof. exact local_binds_fresh. Qed.
+Print Assumptions C01_local_binds_fresh.
+
+Theorem C01_cell_alloc_fresh : forall s v,
+  cells_below s -> PositiveMap.find (fst (cell_alloc s v)) (cells s) = None.
+Proof. exact cell_alloc_fresh. Qed.
+Print Assumptions C01_cell_alloc_fresh.
+
+(* invariant of every run of any length: allocation counters only grow, so a cell,
+   table or closure identity is never handed out twice ... *)
+Theorem C01_identities_never_reused : forall n c c',
+  steps n c = inl c' -> mono (sto c) (sto c').
+Proof. exact steps_mono. Qed.
+Print Assumptions C01_identities_never_reused.
+
+(* ... hence the variable bound by one loop iteration differs from every variable
+   bound later in the run (closures of different iterations do not share it) *)
+Theorem C01_later_cells_differ : forall n σ v c ct k tr ln,
+  steps n (mkCfg ct k (snd (cell_alloc σ v)) tr ln) = inl c ->
+  (ncell σ < ncell (sto c))%positive.
+Proof. exact later_cells_differ. Qed.
+Print Assumptions C01_later_cells_differ.
+
+Theorem C01_steps_compose : forall n m c,
+  steps (n + m) c = match steps n c with inl c' => steps m c' | inr f => inr f end.
+Proof. exact steps_plus. Qed.
+Print Assumptions C01_steps_compose.
